@@ -269,7 +269,7 @@ func sinkAPI(sink string) string {
 // stage of the injected fault, for the violation key.
 func faultStage(fault string) string {
 	switch {
-	case fault == "missing-dir" || fault == "is-dir" || fault == "ro-dir":
+	case fault == "missing-dir" || fault == "is-dir" || fault == "ro-dir" || fault == "empty-path" || fault == "dangling-symlink" || fault == "under-a-file":
 		return "create-error"
 	case fault == "none" || strings.HasPrefix(fault, "fsize:none"):
 		return "no-fault"
